@@ -77,7 +77,7 @@ impl Names {
         };
         n.left_private = lp;
         n.right_private = rp;
-        n.symbols = vec!["u".into(), "s_s".into(), "b__s".into(), "m_g".into(), "aB_1".into()];
+        n.symbols = vec!["u".into(), "s_s".into(), "b__s".into(), "m_g".into(), "aB_1".into(), "vertex_11".into(), "vertex_10".into(), "vertex_1".into()];
         if c.flag(1, 2) {
             // a 0-ary output predicate whose name is also used as a symbol (anthem renames the symbol)
             n.outputs.push(p("z", 0));
